@@ -28,6 +28,7 @@ mod c17;
 mod c15;
 mod c13;
 mod c08;
+mod c11;
 
 use std::path::PathBuf;
 
@@ -77,6 +78,7 @@ fn main() {
     "c15" => c15::run(&o),
     "c13" => c13::run(&o),
     "c08" => c08::run(&o),
+    "c11" => c11::run(&o),
     "c05" => c05::run_stream(&o, "c05"),
     "c04" => c05::run_stream(&o, "c04"),
     s => { eprintln!("unknown stream {s}"); std::process::exit(2); }
